@@ -161,6 +161,12 @@ def build_action(w, P, kind, lid, pname, keys, api="action"):
     raise ValueError(kind)
 
 
+def effect_origin(owner_origin):
+    """origin id of a request issued by the handler of an action: handlers of global/model-a actions run in model a (1),
+    those of model-b actions in model b (2) — as in the native runner"""
+    return 2 if owner_origin == 2 else 1
+
+
 def deadline_val(P, name, dl):
     if dl == "abs":
         return as_time_val(P.time(name))
@@ -195,6 +201,15 @@ def run_script_sym(it, script, opts=None):
         if sc and k < len(sc) and sc[k] == "lag":
             lag = as_dur_val(P.dur(f"lag{k}"))
             return Agg("SyncStatus", [lag], variant="OutOfSync")
+        if sc and k < len(sc) and isinstance(sc[k], dict) and sc[k]["op"] == "sched":
+            # a scheduling request issued through a Scheduler handle WHILE the stepping thread is inside
+            # Clock::synchronize, i.e. at the point of a step where it does not hold the queue lock (C08: requests from
+            # other threads while the simulation is stepping)
+            req = sc[k]
+            act, _p = build_action(wld, P, req["kind"], req["id"], f"k{k}", keys)
+            r = wld.schedule(deadline_val(P, f"k{k}", req["dl"]), act)
+            if cur[0] is not None:
+                cur[0].events.append(("csched", k, res_of(r)))
         return Agg("SyncStatus", [], variant="Synchronized")
 
     w.clock_script = clock
@@ -240,9 +255,10 @@ def run_script_sym(it, script, opts=None):
                     cur[0].events.append(("ecancel", eff["key"]))
             elif eff["op"] == "sched":
                 # each occurrence of a periodic owner would re-run the effect; parameters are shared
-                act, _p = build_action(wld, P, eff["kind"], eff["id"], f"e{i}", keys)
+                # a handler schedules through its model's Context (the handlers of origin-0/1 actions run in model a)
                 dlv = deadline_val(P, f"e{i}", eff["dl"])
-                r = wld.schedule(dlv, act, origin=None if owner_origin == 0 else I(owner_origin, "usize"))
+                pv = as_dur_val(P.period(f"e{i}")) if eff["kind"] in ("periodic", "kperiodic") else None
+                r = wld.schedule_event(eff["kind"], dlv, eff["id"], pv, effect_origin(owner_origin), keys)
                 cur[0].events.append(("esched", i, res_of(r)))
             elif eff["op"] == "panic":
                 from .simworld import ModelPanic
@@ -260,11 +276,17 @@ def run_script_sym(it, script, opts=None):
         try:
             op = cmd["op"]
             if op == "sched":
-                act, _p = build_action(w, P, cmd["kind"], cmd["id"], f"c{i}", keys)
                 if cmd.get("effect"):
                     w.effects[cmd["id"]] = make_effect(i, cmd["effect"], cmd["origin"])
                 dlv = deadline_val(P, f"c{i}", cmd["dl"])
-                r = w.schedule(dlv, act, origin=None if cmd["origin"] == 0 else I(cmd["origin"], "usize"))
+                if cmd["origin"] == 0 and cmd.get("api", "action") == "action":
+                    # pre-built action through Scheduler::schedule -> GlobalScheduler::schedule_from
+                    act, _p = build_action(w, P, cmd["kind"], cmd["id"], f"c{i}", keys)
+                    r = w.schedule(dlv, act)
+                else:
+                    # Scheduler::schedule_*event (global origin) / Context::schedule_*event (model origin)
+                    pv = as_dur_val(P.period(f"c{i}")) if cmd["kind"] in ("periodic", "kperiodic") else None
+                    r = w.schedule_event(cmd["kind"], dlv, cmd["id"], pv, cmd["origin"], keys)
                 o.res = res_of(r)
             elif op == "cancel":
                 if cmd["key"] in keys:
@@ -571,7 +593,13 @@ def oracle(script, P, obs, ck, opts=None):
             elif k == "esched":
                 owner = ev[1]
                 eff = script[owner]["effect"]
-                do_sched(i, eff, f"e{owner}", ev[2], script[owner]["origin"], "handler")
+                do_sched(i, eff, f"e{owner}", ev[2], effect_origin(script[owner]["origin"]), "handler")
+            elif k == "csched":
+                # request issued from inside synchronize(t): the simulation time is already t (the time is advanced
+                # under the queue lock before the clock is consulted), so the request is judged against t
+                if last_sync_in_cmd is not None:
+                    now = last_sync_in_cmd
+                do_sched(i, opts["clock"][ev[1]], f"k{ev[1]}", ev[2], 0, "handler")
 
         t_after = o.time
         ck.check(t_le(t_before, t_after), "C01:time-never-decreases", f"cmd {i}")
